@@ -6,7 +6,7 @@ REPO=${VERIF_REPO:-/repo}
 B=${VERIF_BUILD:-/verif/build}
 R=$B/schedrt
 mkdir -p $R $B/sched
-rsync -a --delete --exclude z_chan.go --exclude sema_llgo.go --exclude /fetchx/fetch.go /verif/sched/rt/ $R/
+rsync -a --delete --exclude z_chan.go --exclude sema_llgo.go --exclude /fetchx/fetch.go --exclude '/isync/mutex.go' --exclude '/syncx/z_*.go' /verif/sched/rt/ $R/
 grep -v '^//go:linkname' $REPO/runtime/internal/runtime/z_chan.go > $R/internal/runtime/z_chan.go
 grep -v '^//go:linkname' $REPO/runtime/internal/lib/runtime/sema_llgo.go > $R/internal/lib/runtime/sema_llgo.go
 # internal/crosscompile/fetch.go, byte-identical except for four import paths (os, syscall, net/http, time -> scheduler-aware stand-ins)
@@ -14,4 +14,12 @@ sed -e 's|^\t"os"$|\tos "github.com/goplus/llgo/runtime/vos"|' -e 's|^\t"syscall
     -e 's|^\t"net/http"$|\thttp "github.com/goplus/llgo/runtime/vhttp"|' -e 's|^\t"time"$|\ttime "github.com/goplus/llgo/runtime/vtime"|' \
     -e 's|^package crosscompile|package fetchx|' $REPO/internal/crosscompile/fetch.go > $R/fetchx/fetch.go
 . /verif/tc/env.sh
+# the standard library's sync primitives as llgo compiles them (sources of the GOROOT on PATH), import paths redirected to the scheduler-aware stand-ins;
+# they run on the real sema_llgo.go copied above
+GR=$(go env GOROOT)
+RW='s|^\t"internal/race"$|\trace "github.com/goplus/llgo/runtime/vrace"|; s|^\t"sync/atomic"$|\t"github.com/goplus/llgo/runtime/internal/lib/sync/atomic"|; s|^\tisync "internal/sync"$|\tisync "github.com/goplus/llgo/runtime/isync"|'
+sed -e "$RW" -e 's|^package sync$|package isync|' $GR/src/internal/sync/mutex.go > $R/isync/mutex.go
+for f in mutex rwmutex waitgroup once cond runtime2; do
+  grep -v '^//go:linkname' $GR/src/sync/$f.go | sed -e "$RW" -e 's|^package sync$|package syncx|' > $R/syncx/z_$f.go
+done
 cd $R && go build -o $B/sched/explore ./cmd/explore && go build -o $B/sched/fetchexplore ./cmd/fetchexplore
